@@ -25,6 +25,7 @@ func init() {
 }
 
 func runC43(c *eng.Ctx) {
+	defer runC43Stale(c)
 	p := c.P
 	P := "storage/remote/otlptranslator/prometheusremotewrite:"
 	MT := "go.opentelemetry.io/collector/pdata/pmetric:MetricType"
